@@ -153,6 +153,31 @@ func (p *vpPacketConn) SetWriteDeadline(t time.Time) error          { return nil
 type vpStream struct {
 	st   *smux.Stream
 	conn *vpConn
+	// deadlines on the logical stream: armed (a non-zero time was set) and expired (time has passed since, vpTimePasses)
+	rdl, wdl, rexp, wexp bool
+}
+
+// vpTimePasses: from now on every deadline armed so far lies in the past
+func vpTimePasses() {
+	for _, x := range vpS.streams {
+		x.rexp, x.wexp = x.rdl, x.wdl
+	}
+}
+
+func vpStreamSetDeadline(st *smux.Stream, t time.Time) error {
+	x := vpFindStream(st)
+	x.rdl, x.wdl, x.rexp, x.wexp = !t.IsZero(), !t.IsZero(), false, false
+	return nil
+}
+func vpStreamSetReadDeadline(st *smux.Stream, t time.Time) error {
+	x := vpFindStream(st)
+	x.rdl, x.rexp = !t.IsZero(), false
+	return nil
+}
+func vpStreamSetWriteDeadline(st *smux.Stream, t time.Time) error {
+	x := vpFindStream(st)
+	x.wdl, x.wexp = !t.IsZero(), false
+	return nil
 }
 
 type vpSession struct {
@@ -369,9 +394,22 @@ func vpSmuxSessionClose(sess *smux.Session) error { vpFindSession(sess).closed++
 func vpSmuxSessionIsClosed(sess *smux.Session) bool { return vpFindSession(sess).closed > 0 }
 func vpSmuxSessionRemoteAddr(sess *smux.Session) net.Addr { return vpAddr{"session-remote"} }
 
-func vpStreamRead(st *smux.Stream, p []byte) (int, error)  { return vpFindStream(st).conn.Read(p) }
-func vpStreamWrite(st *smux.Stream, p []byte) (int, error) { return vpFindStream(st).conn.Write(p) }
+func vpStreamRead(st *smux.Stream, p []byte) (int, error) {
+	if x := vpFindStream(st); x.rdl && x.rexp {
+		return 0, smux.ErrTimeout
+	}
+	return vpFindStream(st).conn.Read(p)
+}
+func vpStreamWrite(st *smux.Stream, p []byte) (int, error) {
+	if x := vpFindStream(st); x.wdl && x.wexp {
+		return 0, smux.ErrTimeout
+	}
+	return vpFindStream(st).conn.Write(p)
+}
 func vpStreamWriteTo(st *smux.Stream, w io.Writer) (int64, error) { // what io.Copy uses when the source is a stream
+	if x := vpFindStream(st); x.rdl && x.rexp {
+		return 0, smux.ErrTimeout
+	}
 	c := vpFindStream(st).conn
 	var n int64
 	buf := make([]byte, 64)
